@@ -53,10 +53,14 @@ type Case struct {
 	Rot  int                 `json:"rot,omitempty"`
 	// readers / unmarshal, compact protocol: BOOL announced as 1 instead of 2 as
 	// element type of lists and sets (Bool1) and as key / value type of maps (MapBool1)
-	Extra    *thriftspec.Field `json:"extra,omitempty"` // unmarshal: a field the type does not declare, put first on the wire (a conformant reader skips it)
-	Bool1    bool              `json:"bool1,omitempty"`
-	MapBool1 bool              `json:"map_bool1,omitempty"`
-	Rev      bool              `json:"rev,omitempty"`
+	Extra *thriftspec.Field `json:"extra,omitempty"` // unmarshal: a field the type does not declare, put first on the wire (a conformant reader skips it)
+	// readers / unmarshal / wseq read-back: how the bytes reach the thrift Reader / Decoder
+	// (index into tgen.DeliveryModes; Chunks for the chunked modes). 0 = bytes.Reader.
+	Deliver  int   `json:"deliver,omitempty"`
+	Chunks   []int `json:"chunks,omitempty"`
+	Bool1    bool  `json:"bool1,omitempty"`
+	MapBool1 bool  `json:"map_bool1,omitempty"`
+	Rev      bool  `json:"rev,omitempty"`
 }
 
 // One class per clause of the specification the library was found to deviate
@@ -261,7 +265,7 @@ func checkCase(c Case, D thriftspec.Dialect) result {
 					return result{fail: &evid.Failure{Oracle: fmt.Sprintf("Writer methods succeed (item %d)", i), Observed: err.Error(), Expected: "nil error", Class: "write-error"}}
 				}
 			}
-			return compareBytes("bytes written by one "+p.String()+" Writer for a sequence of messages and values == concatenated specification bytes", r.Buf.Bytes(),
+			res := compareBytes("bytes written by one "+p.String()+" Writer for a sequence of messages and values == concatenated specification bytes", r.Buf.Bytes(),
 				func(d thriftspec.Dialect) []byte {
 					e := thriftspec.Encoder{P: p, D: d}
 					for _, it := range c.Seq {
@@ -273,6 +277,30 @@ func checkCase(c Case, D thriftspec.Dialect) result {
 					}
 					return e.Buf
 				}, D)
+			if res.fail != nil {
+				return res
+			}
+			// read the stream back through one Reader, the bytes arriving per c.Deliver
+			b := r.Buf.Bytes()
+			tr := &tgen.TreeReader{R: proto(c.P).NewReader(tgen.NewDelivery(c.Deliver, b, c.Chunks)), Remaining: func() int { return len(b) }}
+			for i, it := range c.Seq {
+				what := fmt.Sprintf("item %d of the sequence read back through one %s Reader over a %s io.Reader", i, p, tgen.DeliveryModes[c.Deliver%len(tgen.DeliveryModes)])
+				switch {
+				case it.Msg != nil:
+					m, err := tr.Message()
+					if err != nil || m != *it.Msg {
+						res.fail = &evid.Failure{Oracle: what + " is the message written", Observed: fmt.Sprintf("%+v, %v", m, err), Expected: fmt.Sprintf("%+v", *it.Msg), Class: "read-mismatch"}
+						return res
+					}
+				case it.Val != nil:
+					v, err := tr.Value(it.Val.T)
+					if err != nil || !thriftspec.Same(v, *it.Val) {
+						res.fail = &evid.Failure{Oracle: what + " is the value written", Observed: trunc(fmt.Sprintf("%s, %v", thriftspec.Describe(v), err)), Expected: trunc(thriftspec.Describe(*it.Val)), Class: "read-mismatch"}
+						return res
+					}
+				}
+			}
+			return res
 		})
 	case "marshal":
 		if c.T == nil || c.V == nil {
@@ -296,6 +324,9 @@ func checkCase(c Case, D thriftspec.Dialect) result {
 		return feed(enc, D, func(b []byte) *evid.Failure {
 			br := bytes.NewReader(b)
 			tr := &tgen.TreeReader{R: proto(c.P).NewReader(br), Remaining: br.Len}
+			if c.Deliver != 0 {
+				tr = &tgen.TreeReader{R: proto(c.P).NewReader(tgen.NewDelivery(c.Deliver, b, c.Chunks)), Remaining: func() int { return len(b) }}
+			}
 			if c.Msg != nil {
 				m, err := tr.Message()
 				if err != nil {
@@ -312,7 +343,7 @@ func checkCase(c Case, D thriftspec.Dialect) result {
 			if !thriftspec.Same(got, *c.Tree) {
 				return &evid.Failure{Oracle: "Reader methods return the encoded content (" + p.String() + ")", Observed: thriftspec.Describe(got) + " from " + trunc(evid.Hex(b)), Expected: thriftspec.Describe(*c.Tree), Class: "read-mismatch"}
 			}
-			if br.Len() != 0 {
+			if c.Deliver == 0 && br.Len() != 0 {
 				return &evid.Failure{Oracle: "Reader methods consume exactly the encoding (" + p.String() + ")", Observed: fmt.Sprintf("%d bytes left of %s", br.Len(), trunc(evid.Hex(b))), Expected: "0 bytes left", Class: "read-mismatch"}
 			}
 			return nil
@@ -337,8 +368,16 @@ func checkCase(c Case, D thriftspec.Dialect) result {
 		enc := func(d thriftspec.Dialect) []byte { return encodeAll(p, p, d, nil, &tree, c.Long) }
 		return feed(enc, D, func(b []byte) *evid.Failure {
 			out := reflect.New(c.T.Type())
-			if err := thrift.Unmarshal(proto(c.P), b, out.Interface()); err != nil {
-				return &evid.Failure{Oracle: "Unmarshal accepts a conformant " + p.String() + " encoding", Observed: err.Error() + " on " + trunc(evid.Hex(b)), Expected: "nil error; content " + thriftspec.Describe(tree), Class: "read-error"}
+			var err error
+			how := "Unmarshal"
+			if c.Deliver != 0 {
+				how = "Decoder over a " + tgen.DeliveryModes[c.Deliver%len(tgen.DeliveryModes)] + " io.Reader"
+				err = thrift.NewDecoder(proto(c.P).NewReader(tgen.NewDelivery(c.Deliver, b, c.Chunks))).Decode(out.Interface())
+			} else {
+				err = thrift.Unmarshal(proto(c.P), b, out.Interface())
+			}
+			if err != nil {
+				return &evid.Failure{Oracle: how + " accepts a conformant " + p.String() + " encoding", Observed: err.Error() + " on " + trunc(evid.Hex(b)), Expected: "nil error; content " + thriftspec.Describe(tree), Class: "read-error"}
 			}
 			if s := tgen.Equal(c.T, v, out.Elem()); s != "" {
 				return &evid.Failure{Oracle: "Unmarshal of a conformant " + p.String() + " encoding yields the encoded value", Observed: s + " from " + trunc(evid.Hex(b)), Expected: "equal", Class: "read-mismatch"}
@@ -430,6 +469,12 @@ func genCase(t *rapid.T, o *tgen.Opts) Case {
 	c := Case{P: rapid.SampledFrom([]int{0, 1, 2, 2}).Draw(t, "p")}
 	kind := rapid.SampledFrom([]string{"writer", "writer", "wseq", "wseq", "marshal", "marshal", "marshal", "readers", "readers", "unmarshal", "unmarshal"}).Draw(t, "kind")
 	c.Kind = kind
+	if kind == "wseq" || kind == "readers" || kind == "unmarshal" {
+		c.Deliver = rapid.IntRange(0, len(tgen.DeliveryModes)-1).Draw(t, "deliver")
+		if c.Deliver == 3 || c.Deliver == 4 || c.Deliver == 5 {
+			c.Chunks = rapid.SliceOfN(rapid.IntRange(1, 7), 1, 8).Draw(t, "chunks")
+		}
+	}
 	switch kind {
 	case "wseq":
 		// 2..7 items on one Writer; at least one message header follows another write
@@ -518,6 +563,9 @@ func account(c Case) {
 	evid.Eval(1)
 	p := thriftspec.Proto(c.P % 3)
 	evid.Label("kind." + c.Kind + "." + p.String())
+	if c.Kind == "wseq" || c.Kind == "readers" || c.Kind == "unmarshal" {
+		evid.Label("deliver." + tgen.DeliveryModes[c.Deliver%len(tgen.DeliveryModes)] + "." + c.Kind)
+	}
 	tree := caseTree(c)
 	var st thriftspec.Stats
 	st.Add(tree, 0)
